@@ -32,7 +32,9 @@ def run(chk):
     chk.rule('C05-R4', 'convert_units switch binds (B,Z) to (BoxSize, VelZSpace_to_kms) or both to 1.0; loaders read no header', 2)
     chk.rule('C05-R5', 'INT16SCALE == 32000', 1)
     chk.rule('C05-R6', 'int16 raw columns are promoted to float before they meet a header scalar or an integer (no silent int16 wrap-around for integer BoxSize)', 30)
+    chk.rule('C05-R7', 'the loader table is built afresh by every instance from its own header: bound only to a new dict, no early exit on instance/class state, never stored in shared state', 4)
     chk.exhaustive = True
+    fresh_table(chk)
     tabs = dtype_tables(src)
     for t in ('user_dt', 'clean_dt_progen', 'halo_lc_dt'):
         if t not in tabs:
@@ -137,3 +139,76 @@ def run(chk):
     chk.extra['unclassified_columns'] = unclassified
     chk.check(not hdr_reads, 'C05-R4', CAT, SETUP, 'loaders read only m/raw/halos and the two unit constants',
               f'{len(lt.entries)} loaders', f'loader reads request- or header-dependent state: {hdr_reads[:4]}', node=lt.fn)
+
+
+# --------------------------------------------------------------------------- R7
+def fresh_table(chk):
+    """The loaders are closures over the unit factors read from THIS instance's header, so the table has to be rebuilt
+    by every instance: a table taken from class- or module-level state applies another catalog's BoxSize."""
+    src = chk.src
+    mod = src.tree(CAT)
+    fn = src.func(CAT, SETUP)
+    ATTR = 'halo_field_loaders'
+    regs = [n for n in ast.walk(fn) if isinstance(n, ast.Assign) and any(isinstance(t, ast.Subscript) and isinstance(t.value, ast.Attribute)
+                                                                          and t.value.attr == ATTR for t in n.targets)]
+    if not regs:
+        raise AnalysisError('no loader registrations found')
+    binds, escapes = [], []
+    for n in ast.walk(mod):
+        if isinstance(n, (ast.Assign, ast.AnnAssign, ast.AugAssign)):
+            tg = n.targets if isinstance(n, ast.Assign) else [n.target]
+            if any(isinstance(t, ast.Attribute) and t.attr == ATTR for t in tg):
+                binds.append(n)
+            elif n.value is not None and any(isinstance(x, ast.Attribute) and x.attr == ATTR and isinstance(x.ctx, ast.Load) for x in [n.value])\
+                    and any(not isinstance(t, ast.Name) for t in tg):
+                escapes.append(n)
+        elif isinstance(n, ast.Call) and dotted(n.func) == 'setattr' and len(n.args) >= 2 and isinstance(n.args[1], ast.Constant) and n.args[1].value == ATTR:
+            binds.append(n)
+        elif isinstance(n, ast.Call) and isinstance(n.func, ast.Attribute) and n.func.attr in ('setdefault', 'update', 'append', '__setitem__') \
+                and any(isinstance(a, ast.Attribute) and a.attr == ATTR for a in n.args):
+            escapes.append(n)
+    okb = len(binds) == 1 and isinstance(binds[0], ast.Assign) and [unparse(t) for t in binds[0].targets if not isinstance(t, ast.Name)] == ['self.' + ATTR] \
+        and unparse(binds[0].value) in ('{}', 'dict()', 'OrderedDict()', 'collections.OrderedDict()') \
+        and any(binds[0] is b for b in fn.body) and all(binds[0].lineno < r.lineno for r in regs)
+    chk.check(okb, 'C05-R7', CAT, SETUP, f'self.{ATTR} is bound exactly once, to a new empty dict, unconditionally at the top of the setup',
+              unparse(binds[0]) if binds else '', f'bindings of self.{ATTR}: {[unparse(b)[:90] for b in binds]}: the table can be an object that another '
+              'instance filled with closures over ITS BoxSize / VelZSpace_to_kms', node=binds[0] if binds else fn)
+    chk.check(not escapes, 'C05-R7', CAT, SETUP, f'self.{ATTR} is never stored in class-, module- or container-level state', '',
+              f'the table escapes the instance: {[unparse(e)[:90] for e in escapes]}', node=escapes[0] if escapes else fn)
+    # early exits: only on the parameters of the setup (the passthrough table does not depend on units)
+    params = {a.arg for a in fn.args.args + fn.args.kwonlyargs} - {'self'}
+    parents = {}
+    for n in ast.walk(fn):
+        for c in ast.iter_child_nodes(n):
+            parents[c] = n
+    last = max(r.lineno for r in regs)
+    bad = []
+    for r in ast.walk(fn):
+        if isinstance(r, (ast.Return, ast.Raise)) and r.lineno < last:
+            q, nested = r, False
+            tests = []
+            while q in parents and parents[q] is not fn:
+                q = parents[q]
+                if isinstance(q, (ast.FunctionDef, ast.Lambda)):
+                    nested = True
+                    break
+                if isinstance(q, ast.If):
+                    tests.append(q.test)
+                elif not isinstance(q, (ast.stmt,)) or isinstance(q, (ast.For, ast.While, ast.Try, ast.With)):
+                    tests.append(None)
+            if nested:
+                continue
+            for t in tests:
+                if t is None or not ({x.id for x in ast.walk(t) if isinstance(x, ast.Name)} <= params) or any(isinstance(x, (ast.Call, ast.Attribute)) for x in ast.walk(t)):
+                    bad.append(r)
+                    break
+            if not tests:
+                bad.append(r)
+    chk.check(not bad, 'C05-R7', CAT, SETUP, 'the registrations are skipped only on the value of the setup\'s own parameters (passthrough)', f'{len(regs)} registrations',
+              f'line {bad[0].lineno if bad else 0}: the setup can return before building the loaders depending on instance or shared state: '
+              'the instance then uses loaders built for another header', node=bad[0] if bad else fn)
+    # the constructor runs the setup unconditionally
+    init = src.func(CAT, SETUP.rsplit('.', 1)[0] + '.__init__')
+    calls = [s_ for s_ in init.body if isinstance(s_, ast.Expr) and isinstance(s_.value, ast.Call) and unparse(s_.value.func) == 'self.' + SETUP.rsplit('.', 1)[1]]
+    chk.check(len(calls) == 1, 'C05-R7', CAT, SETUP.rsplit('.', 1)[0] + '.__init__', 'the constructor runs the loader setup unconditionally, once', '',
+              f'{len(calls)} unconditional calls of the loader setup in __init__', node=init)
